@@ -10,6 +10,9 @@ FAM_H = [
     lambda: Gamma("str", "int"),
     lambda: Gamma("npint", "npint"),
     lambda: Gamma("ints", "intfloat"),
+    lambda: Gamma("bigint", "int"),  # equal but not identical label objects
+    lambda: Gamma("mixed", "int"),   # labels that cannot be ordered against each other
+    lambda: Gamma("obj", "int"),     # labels hashable by identity only
 ]
 
 HG_KIT = core.register(core.Kit(
@@ -67,5 +70,7 @@ SC_KIT = core.register(core.Kit(
     invariants=["InvIntegrity", "InvUidFresh", "InvClosed", "InvNoDup", "InvNoEmpty"],
     properties=["PropAddsPreserve", "PropRemoveExact", "PropMaxOrder", "PropFrozen"],
     proj=sc.proj, build=sc.build, call=sc.call, gen=sc.rand_op, cls=xgi.SimplicialComplex,
-    families=FAM_H, obs=sc.obs,
+    # a complex closes itself through the bulk list formats, which are ambiguous for labels mixing
+    # strings and numbers (core.in_domain): that family is left out for complexes
+    families=[f for k, f in enumerate(FAM_H) if k != 6], obs=sc.obs,
 ))
